@@ -93,7 +93,7 @@ def gen(seed, tier):
         # bulk mode: one predicate gets many facts first (size-dependent paths: indexes, caches)
         ki = rng.choice([k for k in range(ASSERTABLE) if KEYS[k][1] >= 1])
         keyset = [ki] + keyset[:1]
-        for _ in range(rng.randrange(8, 15)):
+        for _ in range(rng.randrange(8, 15) if rng.random() < 0.6 else rng.choice((33, 40, 66, 70))):
             row = [rng.choice(VALS[:small_vals + 2]) for _ in range(KEYS[ki][1])]
             ops.append(['assert', rng.random() < 0.2, 'fact', 'inline', ki, row])
     depth_faults = rng.random() < 0.15
@@ -137,7 +137,9 @@ def gen(seed, tier):
             # a malformed goal: whatever the builtin does with it (raise, fail), the store must be as before
             ops.append(['badgoal', rng.choice(('asserta', 'assertz', 'retract', 'retractall')), rng.choice(('query', 'wrap')),
                         rng.choice(('int', 'unbound', 'string', 'atom-store-name'))])
-    return {'ops': ops}
+    # a read-back is itself a series of queries (which can repair what the previous operation left half-done): in a
+    # third of the runs it is done only every 4th operation or only at the end
+    return {'ops': ops, 'readback_every': rng.choice((1, 1, 1, 1, 4, 1000))}
 
 
 def show_goal(ki, pat):
@@ -381,7 +383,7 @@ def execute(plan):
                         if not t.step():
                             break
                         got.append(ex.observe(pargs))
-                        if len(got) > 60:
+                        if len(got) > 300:
                             break
                     if not t.done:
                         end_task(t, endmode)
@@ -439,7 +441,7 @@ def execute(plan):
                     n_more = 0
                     while tk['task'].step():
                         n_more += 1
-                        if n_more > 60:
+                        if n_more > 300:
                             tk['task'].close()
                             break
                     for rid, _ in tk['todo']:
@@ -562,6 +564,9 @@ def execute(plan):
             break
         if ex.task:
             ex.task['steps_between'] += 1
+        if (n + 1) % plan.get('readback_every', 1) and n != len(plan['ops']) - 1:
+            log.count('ops_without_readback')
+            continue
         try:
             diff = ex.readback()
         except Exception as e:
